@@ -243,11 +243,11 @@ pub fn generate_with_features(seed: u64) -> (String, Features) {
         let _ = writeln!(glazing, "     GLASS-TYPE          = \"{}\"", glass);
         let _ = writeln!(glazing, "     GROUP-FRAME       = \"Marcos\"");
         let _ = writeln!(glazing, "     NAME-FRAME        = \"{}\"", frame);
-        let _ = writeln!(glazing, "     PORCENTAGE        = {:.6}", *rng.pick(&[10.0, 25.0, 40.0]));
-        let _ = writeln!(glazing, "     INF-COEF          = {:.6}", *rng.pick(&[3.0, 9.0, 27.0, 50.0]));
+        let _ = writeln!(glazing, "     PORCENTAGE        = {:.6}", *rng.pick(&[10.0, 25.0, 12.5, 33.333]));
+        let _ = writeln!(glazing, "     INF-COEF          = {:.6}", *rng.pick(&[3.0, 9.0, 27.0, 7.777]));
         let _ = writeln!(glazing, "     porcentajeIncrementoU = {:.6}", *rng.pick(&[0.0, 10.0]));
         let _ = writeln!(glazing, "     NAME_CALENER      = \"\"");
-        let _ = writeln!(glazing, "     TransmisividadJulio = {:.6}", *rng.pick(&[1.0, 0.7]));
+        let _ = writeln!(glazing, "     TransmisividadJulio = {:.6}", *rng.pick(&[1.0, 0.7, 0.325]));
         let _ = writeln!(glazing, "     LIBRARY           =  NO");
         let _ = writeln!(glazing, "     UTIL              =  YES");
         let _ = writeln!(glazing, "     ISDOOR            = NO");
